@@ -536,9 +536,12 @@ func (w *worker[T, JobType]) closeChannels() {
 // stopAndRemoveAllWorkers removes all nodes from the list and closes the pool nodes
 func (w *worker[T, JobType]) stopAndRemoveAllWorkers() {
 	for _, node := range w.pool.NodeSlice() {
-		w.pool.Remove(node)
-		node.Value.Stop()
-		w.pool.Cache.Put(node)
+		// only the goroutine that takes a node out of the idle list owns it: the idle
+		// worker remover or the dispatcher may have taken it since the snapshot
+		if w.pool.Remove(node) {
+			node.Value.Stop()
+			w.pool.Cache.Put(node)
+		}
 	}
 }
 
